@@ -21,11 +21,17 @@ def key_of(i):
     return (f'f{i}', f'g{i % 7}')
 
 
-def gen_huge(rng):
+def gen_huge(rng, big=None):
     """a stable list with more than 30000 distinct candidates (e.g. all pairs of 250 features) and a small cap"""
     n = rng.randint(30500, 31500)
     base = list(range(1000, 1000 + n))
     cap = rng.choice([1, 3, 7])
+    if big if big is not None else rng.random() < 0.5:
+        # beyond 2^16 candidates (all pairs of 363+ features), with a cap large enough that a few batches go once round the list
+        n = rng.randint(69000, 75000)
+        base = list(range(1000, 1000 + n))
+        cap = rng.choice([2048, 3000, 4096, 5000])
+        return {'kind': 'stable-huge', 'base': base, 'calls': [(base, cap)] * (n // cap + 3), 'nomodel': True}
     return {'kind': 'stable-huge', 'base': base, 'calls': [(base, cap)] * rng.choice([3, 4])}
 
 
@@ -60,16 +66,33 @@ def run_impl(case):
             k = key_of(i)
             rev[k] = i
             combos.append(k)
-        pre = sorted((rev[k], v) for k, v in cr.GLOBAL_PRIOR_COMB_COUNTS.items())
         args = types.SimpleNamespace(combination_number_upper_bound=cap)
+        if case.get('nomodel'):
+            # 70000 candidates x dozens of calls: the clauses are evaluated here, call by call, instead of keeping every counter state
+            ret = cr.prior_combinations_sample(combos, args)
+            cnt = cr.GLOBAL_PRIOR_COMB_COUNTS
+            acc = case.setdefault('_acc', {})
+            for k in ret:
+                acc[k] = acc.get(k, 0) + 1
+            vals = [cnt.get(k, 0) for k in combos]
+            lo, hi = min(vals), max(vals)
+            over = next((rev[k] for k in combos if cnt.get(k, 0) == hi), None)
+            under = next((rev[k] for k in combos if cnt.get(k, 0) == lo), None)
+            steps.append({'compact': True, 'ret': [rev[k] for k in ret], 'minmax': [lo, hi], 'witness': [over, under],
+                          'accounting_ok': {k: v for k, v in cnt.items() if v} == acc})
+            continue
+        pre = sorted((rev[k], v) for k, v in cr.GLOBAL_PRIOR_COMB_COUNTS.items())
         ret = cr.prior_combinations_sample(combos, args)
         post = sorted((rev[k], v) for k, v in cr.GLOBAL_PRIOR_COMB_COUNTS.items())
         steps.append({'pre': [list(p) for p in pre], 'ret': [rev[k] for k in ret], 'post': [list(p) for p in post]})
     cr.GLOBAL_PRIOR_COMB_COUNTS.clear()
+    case.pop('_acc', None)
     return steps
 
 
 def model_lines(case):
+    if case.get('nomodel'):                    # 70000-element lists: judged by the linear oracle clauses only
+        return []
     ls = [line(Atom(PROP), Atom('reset'))]
     for l, cap in case['calls']:
         ls.append(line(Atom(PROP), Atom('call'), l, cap))
@@ -110,7 +133,7 @@ def evaluate(ctx: Ctx, cases, oracle_only=False):
             ctx.count('cap<n' if cap < len(l) else 'cap>=n')
         mrep, orep = rep[a:a + nm], rep[a + nm:a + nm + no]
         # correspondence
-        if not oracle_only:
+        if not oracle_only and not c.get('nomodel'):
             for i, s in enumerate(st):
                 mret, mcnt = mrep[1 + 2 * i], mrep[2 + 2 * i]
                 mcnt = [x for x in mcnt]
@@ -128,6 +151,19 @@ def evaluate(ctx: Ctx, cases, oracle_only=False):
             if c['kind'] == 'stable-huge':
                 # same clauses, evaluated in linear time: |ret| = min(cap,n), distinct members of the list, spread <= 1, accounting
                 short = {'kind': c['kind'], 'n': len(l), 'first_key': l[0], 'cap': cap, 'ncalls': i + 1}
+                if s.get('compact'):
+                    if len(s['ret']) != min(cap, len(l)) or len(set(s['ret'])) != len(s['ret']) or not set(s['ret']) <= set(l):
+                        ctx.oracle_fail('per-call-clauses', f'huge list n={len(l)} cap={cap} call #{i}: returned {s["ret"][:12]}… ({len(s["ret"])} items)', short)
+                        break
+                    if s['minmax'][1] - s['minmax'][0] > 1:
+                        ctx.oracle_fail('fairness', f'huge stable list of n={len(l)} distinct candidates, cap={cap}: after call #{i} the evaluation counts range '
+                                        f'{s["minmax"][0]}..{s["minmax"][1]} (candidate #{s["witness"][0] - l[0]} of the list was evaluated {s["minmax"][1]} times, '
+                                        f'candidate #{s["witness"][1] - l[0]} {s["minmax"][0]} times)', short)
+                        break
+                    if not s['accounting_ok']:
+                        ctx.oracle_fail('accounting', f'huge list n={len(l)} cap={cap}: after call #{i} the reported counts differ from the selections so far', short)
+                        break
+                    continue
                 post = dict((k, v) for k, v in s['post'])
                 cnts = [post.get(k, 0) for k in c['base']]
                 if len(s['ret']) != min(cap, len(l)) or len(set(s['ret'])) != len(s['ret']) or not set(s['ret']) <= set(l):
@@ -161,6 +197,16 @@ def evaluate(ctx: Ctx, cases, oracle_only=False):
             ctx.sample({'kind': c['kind'], 'calls': c['calls'][:3], 'impl_first_returns': [s['ret'] for s in st[:3]]})
 
 
+def replay(ctx: Ctx, payload):
+    c = payload['case']
+    if c.get('kind') == 'stable-huge' and 'calls' not in c:      # stored in short form
+        base = list(range(c.get('first_key', 1000), c.get('first_key', 1000) + c['n']))
+        c = {'kind': 'stable-huge', 'base': base, 'calls': [(base, c.get('cap', 3))] * c.get('ncalls', 4), 'nomodel': c['n'] > 40000}
+        if c['nomodel']:
+            c['calls'] = [(base, payload['case'].get('cap', 3))] * (len(base) // max(1, payload['case'].get('cap', 3)) + 3)
+    evaluate(ctx, [c])
+
+
 def corpus():
     return [
         {'kind': 'stable', 'base': [1, 2, 3], 'calls': [([3, 1, 2], 2), ([2, 1, 3], 2), ([1, 2, 3], 5), ([1, 2, 3], 0)]},
@@ -173,7 +219,7 @@ def corpus():
 def run(ctx: Ctx):
     n = 3000 if ctx.thorough() else 300
     cases = corpus() + [gen_history(ctx.rng, ctx.thorough()) for _ in range(n)]
-    cases += [gen_huge(ctx.rng) for _ in range(4 if ctx.thorough() else 1)]
+    cases += [gen_huge(ctx.rng, big=(i % 2 == 0)) for i in range(6 if ctx.thorough() else 2)]
     evaluate(ctx, cases)
 
 
